@@ -31,7 +31,7 @@ RULE = ("seeded distributions (1-5 keys over 1-3 topologies, positive weights in
         "dispatching entry point; draw schedules uniform / extreme floats (first/last key) / min,max,sticky "
         "vertex choice / mix; aborts mid-sampling then reuse; 40% of the multi-sample histories edit the loader's distribution "
         "IN PLACE between samples (all keys replaced / re-weighted / a heavy key added) and the next sample is judged against the "
-        "edited distribution; non-trivial = the sample needed at least one "
+        "edited distribution; 15% pass N and / or the key components as numpy int64; non-trivial = the sample needed at least one "
         "handshake patch or had N>=2; distinct = distinct execution digests.  Weighted-draw law: size-1 "
         "configurations (no patching) AND N=1 configurations that need the patch but whose drawn key can be read back from the "
         "output, key frequencies vs weights under the rigorous KL bound")
@@ -117,7 +117,7 @@ def generate(prng, tier, index):
         if prng.random() < 0.4:
             sc["abort_line"] = prng.randrange(0, 60)
         sc["samples"] = max(2, sc["samples"])
-    if prng.random() < 0.15 and all(x < 2 ** 62 for k in keys for x in k):
+    if prng.random() < 0.15 and all(x < 2 ** 31 for k in keys for x in k):       # sums of N int64 degrees must stay far below 2^63
         sc["np_types"] = prng.choice(("N", "keys", "both"))      # N and / or the key components as numpy int64 scalars
     if sc["samples"] >= 2 and prng.random() < 0.4:
         # history on ONE loader: between two samples the distribution it holds is edited IN PLACE through the loader's own
